@@ -1,20 +1,46 @@
 import os as _os
 _REPO = _os.environ.get("VERIF_REPO", "/repo")
+_VERIF = _os.path.dirname(_os.path.dirname(_os.path.dirname(_os.path.abspath(__file__)))) if "__file__" in globals() else "/verif"
+
+# part 0: (a) SENDALL replay through the real RunClientUpdater + ZMQ, (b) persistence round trip; package dastard
 _AB = {
     "pkg": ".", "hdir": "dastard", "harness": DASTARD_COMMON + ["zz_verif_c16_test.go"], "test": "TestVerifC16",
     "engines": ["vexp"],
+    "quick": T(16, 60), "thorough": T(16, 480),
 }
+# part 1: (c) kill at every crash point of saveState, recovery by the real setupViper; package main of cmd/dastard
 _C = {
     "pkg": "cmd/dastard", "hdir": "cmd_dastard", "harness": ["zz_verif_c16c_test.go"], "test": "TestVerifC16c",
     "engines": ["vexp", "vhook"], "runtime_patch": True,
     "instrument": {"files": {}, "crash": {"client_updater.go": ["saveState"]}},
-    # the unexported saveState is reached through a door overlaid into package dastard
-    "_extra_overlay": {_os.path.join(_REPO, "zz_verif_export.go"): "/verif/harness/dastard/zz_verif_export.go"},
+    # the unexported saveState is reached through a door overlaid into package dastard (non-test file)
+    "_extra_overlay": {_os.path.join(_REPO, "zz_verif_export.go"): _os.path.join(_VERIF, "harness", "dastard", "zz_verif_export.go")},
     "quick": T(16, 30, 30), "thorough": T(16, 120, 60),
 }
 ENTRY = {
     "C16": dict(_AB, **{
         "parts": [_AB, _C],
-        "quick": T(16, 60), "thorough": T(16, 480),
+        "rule": "(a) one execution = one sequence of status updates (3 prefixed topics x 2 values with real payload types, repeats, the no-save topic ALIVE, NEWDASTARD, the no-publish topic "
+                "CURRENTTIME, an update json.Marshal rejects) pushed through clientMessageChan into the real RunClientUpdater (real ZMQ PUB socket), then SENDALL, observed by a ZMQ SUB client: live "
+                "traffic must be exactly the publishable updates in order, the replay exactly one message per topic ever published through that updater, equal to the most recent one; "
+                "non-trivial = some topic was published with two different messages. "
+                "(b) one execution = one value of one persisted structure (all other topics at a baseline) saved by the real saveState, read by a fresh viper, decoded by the UnmarshalKey calls of "
+                "RunRPCServer / PrepareRun (trigger states also through the real PrepareRun on a 4-channel source), every exported field compared; then a second run saves changed values for some topics "
+                "and a third start-up must see the new values for those and the old ones for the rest, no-save topics never in the file, .bak = previous file; non-trivial = the value is not the zero value. "
+                "(c) one execution = directory pre-state x boot path x number of saves x kill at one crash point of the last saveState (before every statement that calls os or viper) "
+                "[x torn temporary file], then the real setupViper: it must succeed and yield the complete previous or complete new version (all keys), then a further save+restart must work; "
+                "non-trivial = the kill fired",
+        "assumptions": ["kill = process kill between two statements of saveState (no power loss / page-cache loss); viper.WriteConfigAs itself is not instrumented: a kill inside it is modelled by the "
+                        "torn temporary file (0 bytes, 1 byte, half, all but one byte); files live on tmpfs when /dev/shm exists",
+                        "an empty configuration after a kill is accepted only if no version had ever been saved before",
+                        "start-up deliberately normalises some values after decoding (Npresamp<=0 -> 400, Nsamples<=Npresamp -> 2*Npresamp, SamplePeriod<=0 -> 10us, Nchan==0 -> 1), forces EdgeMulti=false "
+                        "and does not persist EMTState: the comparison is on the decoded values before normalisation, EdgeMulti/EMTState excluded; of WRITING only BasePath is used by start-up",
+                        "negative channel indices in a saved trigger list are out of domain (ComputeFullTriggerState only emits processor indices; PrepareRun would index out of range)",
+                        "an update whose state json.Marshal rejects is never published and no dastard state is unencodable: what the updater does with it (SENDALL then replays the topic with an empty body) "
+                        "is counted as observation obs_a_unencodable_update_blanks_replay, not judged",
+                        "NEWDASTARD is an event announcement the updater deliberately never remembers; TRIGGERRATE (thorough only) follows the same path as ALIVE",
+                        "ZMQ delivery is asynchronous: the harness waits for a sentinel; a discrepancy is re-run alone on a fresh updater before it is reported; a missing sentinel is an infrastructure failure",
+                        "the updater's own save timers (2 s after a change) fire during part (a) with no configuration file set, so saveState returns after WriteConfigAs fails"],
+        "technique": "exhaustive bounded enumeration on the real code (sequential explorer) + crash-point injection (engine C) in saveState",
     }),
 }
